@@ -150,8 +150,29 @@ var lifePurposes = map[int][]string{
 	3: {"capabilityInvocation", "capabilityDelegation", "authentication"},
 }
 
+// document keys: every key type a document may hold, going with (id, version); the purposes go with the version
+// (version 2 has keyAgreement: the types allowed for it)
+var lifeDocKinds = map[int][3][2]string{
+	1: {{"p256", "JsonWebKey2020"}, {"ed", "Ed25519VerificationKey2018"}, {"k1", "EcdsaSecp256k1VerificationKey2019"}},
+	2: {{"bls", "Bls12381G2Key2020"}, {"p384", "JsonWebKey2020"}, {"k1", "EcdsaSecp256k1VerificationKey2019"}},
+	3: {{"p521", "JsonWebKey2020"}, {"bls", "Bls12381G2Key2020"}, {"ed", "JsonWebKey2020"}},
+}
+
+func lifeDocKind(k CEnt) (kt, typ string) {
+	row, ok := lifeDocKinds[k.Ver]
+	if !ok {
+		return "p256", "JsonWebKey2020"
+	}
+
+	c := row[(k.ID+2)%3]
+
+	return c[0], c[1]
+}
+
 func (e *lifeEnv) docKey(k CEnt) *Key {
-	return e.pool.Get("p256", fmt.Sprintf("lifedoc%dv%d", k.ID, k.Ver))
+	kt, _ := lifeDocKind(k)
+
+	return e.pool.Get(kt, fmt.Sprintf("lifedoc%dv%d", k.ID, k.Ver))
 }
 
 func (e *lifeEnv) keyJSON(k CEnt) map[string]interface{} {
@@ -162,10 +183,14 @@ func (e *lifeEnv) keyJSON(k CEnt) map[string]interface{} {
 		pp = append(pp, p)
 	}
 
-	return map[string]interface{}{
-		"id": fmt.Sprintf("k%d", k.ID), "type": "JsonWebKey2020", "purposes": pp,
-		"publicKeyJwk": map[string]interface{}{"kty": pk.JWK.Kty, "crv": pk.JWK.Crv, "x": pk.JWK.X, "y": pk.JWK.Y},
+	_, typ := lifeDocKind(k)
+	j := map[string]interface{}{"kty": pk.JWK.Kty, "crv": pk.JWK.Crv, "x": pk.JWK.X}
+
+	if pk.JWK.Y != "" {
+		j["y"] = pk.JWK.Y
 	}
+
+	return map[string]interface{}{"id": fmt.Sprintf("k%d", k.ID), "type": typ, "purposes": pp, "publicKeyJwk": j}
 }
 
 // (even versions: a query with characters that HTML-minded JSON writers escape)
@@ -179,6 +204,16 @@ func lifeSvcURI(s CEnt) string {
 
 func (e *lifeEnv) svcJSON(s CEnt) map[string]interface{} {
 	return map[string]interface{}{"id": fmt.Sprintf("s%d", s.ID), "type": fmt.Sprintf("SvcType%d", s.Ver), "serviceEndpoint": lifeSvcURI(s)}
+}
+
+// at the level of the request builders the caller writes the service itself: with numbers of either sign
+func (e *lifeEnv) svcJSONBuilders(s CEnt) map[string]interface{} {
+	m := e.svcJSON(s)
+	for name, val := range lifeSvcProps() {
+		m[name] = val
+	}
+
+	return m
 }
 
 func (e *lifeEnv) docJSON(d *CDoc) string {
@@ -196,7 +231,7 @@ func (e *lifeEnv) docJSON(d *CDoc) string {
 	if len(d.Svcs) > 0 {
 		l := []interface{}{}
 		for _, s := range d.Svcs {
-			l = append(l, e.svcJSON(s))
+			l = append(l, e.svcJSONBuilders(s))
 		}
 
 		m["service"] = l
@@ -264,7 +299,7 @@ func (e *lifeEnv) projectDoc(doc document.Document) (CDoc, []string) {
 							withProps[name] = val
 						}
 
-						for name, val := range map[string]interface{}{"custom": "v"} {
+						for name, val := range lifeSvcProps() {
 							withProps[name] = val
 						}
 
@@ -400,7 +435,7 @@ func (e *lifeEnv) updatePatches(u *lUpd) ([]patch.Patch, error) {
 	if len(u.AddSvcs) > 0 {
 		var l []interface{}
 		for _, s := range u.AddSvcs {
-			l = append(l, e.svcJSON(s))
+			l = append(l, e.svcJSONBuilders(s))
 		}
 
 		if err := add(patch.NewAddServiceEndpointsPatch(js(l))); err != nil {
@@ -436,7 +471,9 @@ func window(win string, t int) (from, until int64) {
 }
 
 func (e *lifeEnv) sdocKey(k CEnt) *sdoc.PublicKey {
-	return &sdoc.PublicKey{ID: fmt.Sprintf("k%d", k.ID), Type: "JsonWebKey2020", Purposes: lifePurposes[k.Ver],
+	_, typ := lifeDocKind(k)
+
+	return &sdoc.PublicKey{ID: fmt.Sprintf("k%d", k.ID), Type: typ, Purposes: lifePurposes[k.Ver],
 		JWK: jwk.JWK{JSONWebKey: gojose.JSONWebKey{Key: e.docKey(k).Pub}}}
 }
 
@@ -445,6 +482,12 @@ func (e *lifeEnv) sdocKey(k CEnt) *sdoc.PublicKey {
 func (e *lifeEnv) sdocSvc(s CEnt, props map[string]interface{}) *docdid.Service {
 	return &docdid.Service{ID: fmt.Sprintf("s%d", s.ID), Type: fmt.Sprintf("SvcType%d", s.Ver),
 		ServiceEndpoint: endpoint.NewDIDCommV1Endpoint(lifeSvcURI(s)), Properties: props}
+}
+
+// the further properties of the caller's services: text, and numbers of either sign (whole, fractional, the largest
+// whole number a double holds exactly)
+func lifeSvcProps() map[string]interface{} {
+	return map[string]interface{}{"custom": "v", "utcOffset": -5, "ratio": -0.25, "zero": 0, "floor": -9007199254740991, "nested": map[string]interface{}{"delta": []interface{}{-1, 1, -1.5e-7, -1e21}}}
 }
 
 func aoString(ao int) string {
@@ -765,7 +808,7 @@ func (e *lifeEnv) step(pre *lifeState, st *lStep, t int, want *lPost) lifeOutcom
 			}
 		}()
 
-		svcProps := map[string]interface{}{"custom": "v"}
+		svcProps := lifeSvcProps()
 		propsBefore := digestJSON(svcProps)
 
 		builts = e.build(st, t, did, pre, svcProps)
